@@ -499,7 +499,32 @@ type c10branch struct {
 type c10core struct {
 	fail    bool
 	errText string
+	err     error
 	writes  int
+}
+
+// Errors returned by sinks and cores are arbitrary values of arbitrary types:
+// besides the usual pointer-shaped errors.New values, slice- and
+// struct-with-slice typed errors (not comparable with ==) are injected.
+type c10sliceErr []string
+
+func (e c10sliceErr) Error() string { return strings.Join(e, "") }
+
+type c10structErr struct {
+	parts []string
+	code  int
+}
+
+func (e c10structErr) Error() string { return strings.Join(e.parts, "") }
+
+func c10mkErr(kind int, text string) error {
+	switch kind {
+	case 1:
+		return c10sliceErr{text[:len(text)/2], text[len(text)/2:]}
+	case 2:
+		return c10structErr{parts: []string{text}, code: len(text)}
+	}
+	return errors.New(text)
 }
 
 func (k *c10core) Enabled(zapcore.Level) bool        { return true }
@@ -510,7 +535,7 @@ func (k *c10core) Check(e zapcore.Entry, ce *zapcore.CheckedEntry) *zapcore.Chec
 func (k *c10core) Write(zapcore.Entry, []zapcore.Field) error {
 	k.writes++
 	if k.fail {
-		return errors.New(k.errText)
+		return k.err
 	}
 	return nil
 }
@@ -534,6 +559,7 @@ func runC10(c *Ctx) {
 	nBranch := 1 + g.Weighted(2, 3, 2, 1)
 	var branches []*c10branch
 	var cores []zapcore.Core
+	errKind := f.Weighted(4, 1, 1)
 	for b := 0; b < nBranch; b++ {
 		br := &c10branch{kind: g.Weighted(5, 2, 1), errText: fmt.Sprintf("branch-%d-failure", b)}
 		br.failing = f.Chance(3)
@@ -542,7 +568,7 @@ func runC10(c *Ctx) {
 			br.sinks = append(br.sinks, s)
 			return s
 		}
-		injErr := errors.New(br.errText)
+		injErr := c10mkErr(errKind, br.errText)
 		setFail := func(s *zsim.SimSink) {
 			br.mode = f.Draw(4)
 			switch br.mode {
@@ -580,7 +606,7 @@ func runC10(c *Ctx) {
 			}
 			br.core = zapcore.NewCore(zapcore.NewJSONEncoder(encCfg()), zap.CombineWriteSyncers(a, bb), zapcore.DebugLevel)
 		case 2:
-			br.custom = &c10core{fail: br.failing, errText: br.errText}
+			br.custom = &c10core{fail: br.failing, errText: br.errText, err: injErr}
 			br.mode = 4
 			br.core = br.custom
 		}
